@@ -12,11 +12,15 @@ NP_DTYPE = {"float32": np.float32, "float64": np.float64, "int64": np.int64, "in
 
 
 def make_x(N, T, trail, base=1, dtype="float32"):
-    """Distinct integer-valued entries: x[n, t, ...] = base + flat index."""
+    """Distinct entries: x[n, t, ...] = base + flat index (float64: plus 2^-30, so that the values are not
+    representable in float32; every dtype holds them exactly)."""
     shape = (N, T) + tuple(trail)
     n = int(np.prod(shape)) if shape else 1
     x = np.arange(base, base + n, dtype=np.int64).reshape(shape)
-    return x.astype(NP_DTYPE[dtype])
+    x = x.astype(NP_DTYPE[dtype])
+    if dtype == "float64":
+        x = x + 2.0 ** -30
+    return x
 
 
 def pad_row(seq, l, r, mode, value):
